@@ -20,12 +20,13 @@ def _en_only():
     return fam
 
 
-def expressions(culture):
+def expressions(culture, small_numbers=False):
+    """small_numbers: number words below 10^7 only (several long French numerals in one sentence take minutes to extract)"""
     fam = []
     if culture in c03.CONV:
         fam.append(c03.cases(culture).map(lambda k: ('digits', c03.literal(k) + ('%' if k.get('pct') else ''))))
     if culture in c04.BOUND:
-        fam.append(c04.cases(culture).map(lambda k: ('number-words', c04.phrase(k))))
+        fam.append(c04.cases(culture).map(lambda k: ('number-words', c04.phrase(dict(k, n=k['n'] % 10 ** 7 if small_numbers else k['n'])))))
     if culture in G.DT_CULTURES:
         fam.append(c06.cases(culture).map(lambda k: ('date', c06.build(dict(k, carrier='{}'))[2])))
     if culture == 'en-us':
